@@ -47,6 +47,9 @@ MUTANTS = [
  {"id": "counter-form-benign", "kind": "benign", "edits": [{"patch": "/verif/benign/m-pattern-1/patch.diff"}]},
  {"id": "helper-form-benign", "kind": "benign", "edits": [{"patch": "/verif/benign/pattern-1/patch.diff"}]},
  {"id": "counter-decrement-unguarded", "kind": "break", "edits": [{"patch": "/verif/benign/m-pattern-1/patch.diff"}, ("src/pattern.rs", "                    '}' if depth == 0 => return Err(PatternError::Alternate),\n", "")], "expect": ["PANIC@pattern::Pattern::new#assert:Overflow(Sub)"]},
+ {"id": "any-form-split-once-benign", "kind": "benign", "edits": [{"patch": "/verif/benign/m-pattern-3/patch.diff"}]},
+ {"id": "any-form-slices-benign", "kind": "benign", "edits": [{"patch": "/verif/benign/pattern-3/patch.diff"}]},
+ {"id": "any-form-alternatives-from-two", "kind": "break", "edits": [{"patch": "/verif/benign/pattern-3/patch.diff"}, ("src/pattern.rs", "let alternatives = &rest[1..close];", "let alternatives = &rest[2..close];")], "expect": ["PANIC@pattern::Pattern::alternate_match#call:index"]},
  {"id": "probe-panic-division-by-len", "kind": "break", "edits": [(S, "        let slen = input_string.len();", "        let slen = input_string.len();\n        let _avg = slen / self.entries.len();")], "expect": ["PANIC"]},
  {"id": "probe-panic-remove-first-entry", "kind": "break", "edits": [(L, "        Ok(plist)\n    }\n\n    /**\n     * Return the package name as specified", "        if plist.entries.len() > 1000000 {\n            plist.entries.remove(0);\n        }\n        Ok(plist)\n    }\n\n    /**\n     * Return the package name as specified")], "expect": []},
 ]
